@@ -106,7 +106,7 @@ impl Property for C02 {
     }
     fn cases(&self, tier: Tier) -> u32 {
         match tier {
-            Tier::Quick => 12_000,
+            Tier::Quick => 30_000,
             Tier::Thorough => 300_000,
         }
     }
@@ -200,7 +200,7 @@ impl Property for C03 {
     }
     fn cases(&self, tier: Tier) -> u32 {
         match tier {
-            Tier::Quick => 10_000,
+            Tier::Quick => 25_000,
             Tier::Thorough => 300_000,
         }
     }
@@ -322,7 +322,7 @@ impl Property for C04 {
     }
     fn cases(&self, tier: Tier) -> u32 {
         match tier {
-            Tier::Quick => 10_000,
+            Tier::Quick => 25_000,
             Tier::Thorough => 300_000,
         }
     }
@@ -387,7 +387,7 @@ impl Property for C05 {
     }
     fn cases(&self, tier: Tier) -> u32 {
         match tier {
-            Tier::Quick => 10_000,
+            Tier::Quick => 25_000,
             Tier::Thorough => 250_000,
         }
     }
@@ -450,7 +450,7 @@ impl Property for C11 {
     }
     fn cases(&self, tier: Tier) -> u32 {
         match tier {
-            Tier::Quick => 10_000,
+            Tier::Quick => 25_000,
             Tier::Thorough => 250_000,
         }
     }
@@ -517,7 +517,7 @@ impl Property for C12 {
     }
     fn cases(&self, tier: Tier) -> u32 {
         match tier {
-            Tier::Quick => 10_000,
+            Tier::Quick => 25_000,
             Tier::Thorough => 300_000,
         }
     }
